@@ -95,6 +95,11 @@ def xmllint_msg(work, doc):
     r = subprocess.run([XMLLINT, '--noout', '--nonet', p], capture_output=True)
     msg = r.stderr.decode(errors='replace')
     lines = [l for l in msg.split('\n') if ' error ' in l or ' warning ' in l]
+    fatal = [l for l in lines if 'parser error' in l or 'I/O error' in l or 'encoding error' in l]
+    if r.returncode != 0 and fatal:
+        lines = fatal
+    elif r.returncode != 0:
+        lines = [l for l in lines if 'warning' not in l] or lines
     return r.returncode, (lines[0].split(':', 2)[-1].strip() if lines else msg.strip()[:80])
 
 
@@ -285,9 +290,14 @@ def main():
 
     def process(items):
         docs = [d.encode('utf-8', 'surrogatepass') for _, d in items]
+        ta = time.time()
         ours = run_wfcli(args.wfcli, docs)
+        tb = time.time()
         ex = run_expat(pool, docs)
+        tc = time.time()
         xl = [None] * len(docs) if args.no_xmllint else run_xmllint(args.work, docs)
+        td = time.time()
+        print('    phases: wfcli %.1fs expat %.1fs xmllint %.1fs' % (tb - ta, tc - tb, td - tc), file=sys.stderr)
         for (kind, _), doc, o, e, x in zip(items, docs, ours, ex, xl):
             stats['total'] += 1
             stats['kind-' + kind] += 1
